@@ -1,2 +1,61 @@
-From Burrow Require Import Notifier.
-Example placeholder_C14 : True. Proof. exact I. Qed.
+(* C14 - Notifications obey threshold / interval / send-once; every incident is announced.
+   Statements only; proofs are in NotifierProofs.v.  Model: Notifier.v (notifyModule gating of
+   core/internal/notifier/coordinator.go after the `fix:` commit for finding F3, tied to the source by the probe of
+   checks/c14.py on every run).  Vocabulary as in props/C13.v; [open_call mods h j n] - result j makes a
+   stateGood = false notification to the module named n.  send-interval and send-once are counted within an incident. *)
+From Coq Require Import ZArith List Bool.
+From Burrow Require Import Int64 Notifier NotifierProofs.
+Import ListNotations.
+Open Scope Z_scope.
+
+(* Only for a status at or above the module's threshold, and a group its lists (and AcceptConsumerGroup) accept. *)
+Theorem C14_threshold_respected :
+  forall mods h j c,
+    names_distinct mods -> In c (calls_at mods h j) -> nc_good c = false ->
+    exists now r m, nth_error h j = Some (now, r) /\ In m mods /\ nm_name m = nc_module c /\
+      nc_status c = nr_status r /\ nr_status r <> 0 /\ (nc_cluster c, nc_group c) = resp_key r /\
+      nm_threshold m <= nr_status r /\
+      lists_accept (nm_lists m (nr_group r)) = true /\ nm_accept_group m = true.
+Proof. exact threshold_respected. Qed.
+Print Assumptions C14_threshold_respected.
+
+(* At most once per send interval (within an incident; the interval in nanoseconds fits time.Duration). *)
+Theorem C14_interval_respected :
+  forall mods h k i j1 j2 m,
+    names_distinct mods -> opens h k i -> member h k i j1 -> member h k i j2 -> (j1 < j2)%nat -> In m mods ->
+    0 <= nm_interval m * 1000000000 < two63 ->
+    open_call mods h j1 (nm_name m) -> open_call mods h j2 (nm_name m) ->
+    clock_at h j2 - clock_at h j1 > nm_interval m * 1000000000.
+Proof. exact interval_respected. Qed.
+Print Assumptions C14_interval_respected.
+
+(* At most once per incident when send-once is set. *)
+Theorem C14_send_once_respected :
+  forall mods h k i j1 j2 m c1 c2,
+    names_distinct mods -> opens h k i -> member h k i j1 -> member h k i j2 -> In m mods -> nm_once m = true ->
+    In c1 (calls_at mods h j1) -> nc_module c1 = nm_name m -> nc_good c1 = false ->
+    In c2 (calls_at mods h j2) -> nc_module c2 = nm_name m -> nc_good c2 = false ->
+    j1 = j2 /\ c1 = c2.
+Proof. exact send_once_respected. Qed.
+Print Assumptions C14_send_once_respected.
+
+(* Every incident whose status reaches a module's threshold is announced to it - the second and later incidents of a
+   group included, for every combination of threshold, send-interval, send-once and send-close. *)
+Theorem C14_every_incident_announced :
+  forall mods h k i j m s,
+    names_distinct mods -> opens h k i -> member h k i j -> In m mods ->
+    status_of h k j = Some s -> nm_threshold m <= s ->
+    lists_accept (nm_lists m (snd k)) = true -> nm_accept_group m = true ->
+    exists p, member h k i p /\ (p <= j)%nat /\ open_call mods h p (nm_name m).
+Proof. exact every_incident_announced. Qed.
+Print Assumptions C14_every_incident_announced.
+
+(* Documentation of finding F3: the same statement was false for the tree before the fix ([run_gen false]). *)
+Theorem C14_announce_refuted_before_fix :
+  exists mods h k i m s,
+    names_distinct mods /\ opens h k i /\ In m mods /\ status_of h k i = Some s /\ nm_threshold m <= s /\
+    lists_accept (nm_lists m (snd k)) = true /\ nm_accept_group m = true /\
+    (forall p c, member h k i p -> In c (nth p (fst (run_gen false mods c_init h)) []) -> nc_good c = true) /\
+    (exists c, In c (nth i (fst (run mods c_init h)) []) /\ nc_module c = nm_name m /\ nc_good c = false).
+Proof. exact announce_refuted_before_fix. Qed.
+Print Assumptions C14_announce_refuted_before_fix.
